@@ -1299,7 +1299,9 @@ def c17_cases(tier, seed):
         for cs in ("f", "t", "F", "T"):
             t = rng.choice(["na\u00efve \u65e5\u672c x", "a\U0001F600b \u00e9\u00e9 c", "\u65e5a\u65e5b\u65e5"])
             target = rng.choice([ch for ch in t if ord(ch) > 127])
-            keys = list(t) + ["Esc", rng.choice(["0", "$", "b"])] + ([rng.choice("23")] if rng.random() < 0.4 else []) + [op, cs, target]
+            # (from the start for forward searches, from the end for backward ones: the target is there to be found)
+            target = rng.choice([ch for ch in (t[1:] if cs in "ft" else t[:-1]) if ord(ch) > 127])
+            keys = list(t) + ["Esc", "0" if cs in "ft" else "$"] + [op, cs, target]
             if op == "c":
                 keys += ["q", "Esc"]
             keys += [rng.choice([";", ",", "p", "u"]), "Enter", "Enter"]
